@@ -115,7 +115,7 @@ pub fn run(prop: &str, args: &Args, rep: &mut Report) {
         // every behavioural monitor, configured for this build's feature set
         env.enabled = P_C01 | P_C05 | P_C06 | P_C10 | P_C11 | P_C13 | P_C15 | P_C16;
     }
-    let total: u64 = if prop == "C16" { if args.thorough { 100_000 } else { 8_000 } } else if args.thorough { 1_000_000 } else { 24_000 };
+    let total: u64 = if prop == "C16" { if args.thorough { 100_000 } else { 8_000 } } else if args.thorough { 4_000_000 } else { 160_000 };
     let n = args.scaled(total) / args.nshards.max(1);
     let prop_s = prop.to_string();
     run_session_cases(args, n, &env, rep, &|rng, idx| {
